@@ -239,6 +239,27 @@ CLAIMS = {
             "hash orders are sampled by launching processes (the evidence reports how many distinct orders were observed); "
             "one project family",
             "DESIGN.md section 3 C13"),
+    "C09": ("model_checking",
+            "TLC model of the language server's concurrent notification handlers (Lsp.tla: one action per stretch of code "
+            "between two awaits) checked exhaustively within bounds; histories exported by the model and random longer ones "
+            "replayed into the real tower-lsp service in-process and its publish sequences validated against the model and "
+            "the property (Trace_C09); front-end clause: one rule set and text pushed through 11 routes of the real tool "
+            "and compared by FrontEnds.tla",
+            "History clause: Lsp.tla models did_open/did_change/did_close as tower-lsp runs them (handlers started in "
+            "arrival order, interleaving only at awaits, at most MaxConc in flight, a synchronous wait on a held DashMap "
+            "guard stops the server). TLC checks NewestPublished, NoDeadlock, NothingOutside and MapAgrees for every "
+            "history of <=4 (quick) / <=5 (thorough) notifications with versions in any order, and a second configuration "
+            "must still find the pre-repair protocol violating them. For every history the model also exports the publish "
+            "sequences it can produce; the recorder sends the same histories (sequentially, as one burst, as a burst with a "
+            "delayed workspace answer, 1 and 3 runtime threads) to the real LspService and Trace_C09 checks what was "
+            "published against the property and against the model's set. Findings clause: per language (7) and rule-set "
+            "variant the same text goes through scan on a file (project and -r), --stdin, three JSON styles, --format "
+            "github (file and stdin), the coloured report, sg test and the language server; FrontEnds.tla states what each "
+            "must show of the library's findings (ids, byte ranges, line/column in the unit of the front end, substituted "
+            "messages, levels).",
+            "the model is bounded (one document, <=5 notifications, <=4 concurrent handlers); real schedules are sampled "
+            "(3 modes x 2 thread counts), not enumerated; texts come from a statement pool per language",
+            "DESIGN.md section 3 C09"),
     "C11": ("exploration",
             "TLA+ generator model of rule documents (RuleDocGen.tla: fields x value classes, pairwise deviations) enumerated "
             "by TLC; every generated document offered to the real CLI in six roles in isolated children under timeout",
